@@ -434,7 +434,7 @@ def check_generic(prop, tier, cfgs, n_quick, n_thorough, sigfun, stages, level="
             tp = Program(len(progs), gen_mini.occurrence_table(), root, "table:occurrence")
             tp.port = None
             progs.append(tp)
-        if prop in ("C02", "C04", "C08", "C09"):
+        if prop in ("C02", "C03", "C04", "C08", "C09"):
             # declaration-order family: one fixed content in many declaration orders
             for label, ss in gen_mini.order_family_programs(rng(prop, "order-family"), {"C02": 32}.get(prop, 16) if tier == "quick" else 600):
                 op = Program(len(progs), ss, root, label)
@@ -590,7 +590,10 @@ def profiles(q):
         "restr": gen.cfg_with(files=(1, 3), wsdl=True, p_inline_schemas=0.3, quarantine=q, simple_per_file=(3, 6), complex_per_file=(1, 3), avoid_nested_same_name=True,
                               elements_per_file=(0, 1), p_simple_derived=0.5, headers=(0, 2), ops=(1, 3), p_oneway=0.3),
         "ext": gen.cfg_with(files=(1, 3), quarantine=q, p_ext=0.75, complex_per_file=(3, 6), simple_per_file=(0, 2),
-                            elements_per_file=(0, 2), p_cross_file=0.6, own_ns_default=0.3),
+                            elements_per_file=(0, 2), p_cross_file=0.6, own_ns_default=0.3, p_attrs_only_type=0.25),
+        # extension forests spread over the inline schemas of one WSDL (bases in a schema that comes later in the document)
+        "ext-wsdl": gen.cfg_with(files=(2, 3), wsdl=True, p_inline_schemas=1.0, quarantine=q, p_ext=0.8, complex_per_file=(2, 4), simple_per_file=(0, 1),
+                                 elements_per_file=(0, 1), p_cross_file=0.7, ops=(1, 2), attr_named_simple=False, avoid_nested_same_name=True),
         "ext-keywords": gen.cfg_with(files=(2, 3), quarantine=q, p_ext=0.75, complex_per_file=(3, 5), keyword_rate=0.25),
         "names": gen.cfg_with(files=(3, 4), quarantine=q, name_pool=pool, max_words=2, keyword_rate=0.0, reuse_names=True, p_component_rebinds_prefix=0.6,
                               p_ref=0.45, p_ext=0.45, p_cross_file=0.7, elements_per_file=(1, 3), complex_per_file=(2, 4)),
@@ -799,7 +802,10 @@ def run(prop, tier):
         sigf = {"C05": sig_c05, "C16": sig_c16, "C18": sig_c18}[prop]
         full = prop != "C18"
         cfgs = wsdl_cfgs(q)
-        nq, nt = {"C05": (16, 400), "C16": (8, 120), "C18": (16, 400)}[prop]
+        if prop == "C05":
+            # reused names (header / body elements with one local name in several namespaces) and several headers
+            cfgs = cfgs + [("names-wsdl-headers", gen.cfg_with(**dict(profiles(q)["names-wsdl"], headers=(2, 3), ops=(1, 2), p_header_namesakes=0.7)))]
+        nq, nt = {"C05": (20, 500), "C16": (8, 120), "C18": (16, 400)}[prop]
         def wsdl_stage(p):
             engine_w.stage_wsdl(p, full_matrix=full)
         # programs that do not compile still have their methods and envelopes judged from the emitted text
@@ -822,7 +828,7 @@ def run(prop, tier):
             nontrivial=lambda p: p.stats.get("restr_samples", 0) > p.stats.get("restr_valid_samples", 0), min_eval=4,
             cell_prefix="restr_cell:", eval_key="restr_samples")
     elif prop == "C08":
-        cfgs = pick(q, "ext", "ext-keywords", "ext-twin")
+        cfgs = pick(q, "ext", "ext-keywords", "ext-twin", "ext-wsdl")
         check_generic("C08", tier, cfgs, 24, 800, sig_c08, ["static", "probe", stage_runtime], rule=(
             "extension forests: depth 1-4 chains, bases declared before/after/in another file, own content empty / sequences / choices / "
             "attributes, same or different namespaces; oracle = the C02 member-list and typed-probe oracle restricted to derived "
@@ -1206,6 +1212,8 @@ def sig_c16(f):
         return f"C16|requests|scenario-class={_scen_class(f)}|{'accepts' if 'accepted' in f.get('what', '') else 'logged'}"
     if r == "http-method":
         return "C16|method"
+    if r == "address":
+        return "C16|request-target" + ("|host" if str(f.get("actual", "")).startswith("Host:") else "")
     if r == "body-mismatch":
         return "C16|body-mismatch"
     if r == "auth":
